@@ -86,6 +86,13 @@ def nodegen_cmd(s: str) -> int:
     return {"CE": 257, "DW": 280, "DP": 282, "CC": 272, "AC": 271, "UN": 999, "MO": 8388733}.get(s) or int(s)
 
 
+def eager(line: str) -> str:
+    """the same scenario under the schedule where writer and I/O loop run at once
+    whenever a message is queued (see sim.Sim._make_eager)"""
+    cfg, sep, rest = line.partition(" | ")
+    return cfg + ";eager=1" + sep + rest
+
+
 class _Timeout(BaseException):
     pass
 
@@ -155,6 +162,8 @@ def run(res: Result, scenarios: list[str], keep: dict, oracle, label: str = ""):
         if not fs:
             res.nontrivial.add(hash(line))
         pr, pm = project(r, keep), project(m, keep)
+        if ";eager=1" in line.split("|")[0]:
+            continue            # alternative schedule of the real node: direct oracle only (the model is sequential)
         if pr != pm:
             i = next((k for k, (a, b) in enumerate(zip(pr, pm)) if a != b), min(len(pr), len(pm)))
             div.append({"line": line[:3000], "real": " / ".join(pr[max(0, i - 3):i + 3])[:1500],
